@@ -382,6 +382,8 @@ def rule_unknown(ctx):
     check_unknown(ctx, "C13.UNKNOWN")
 
 
+EXPLANATION = EXPLANATION + ' C13.CHILD also requires that no element class derives from another: the kind test is an isinstance test, an element of a derived kind would pass wherever the base kind is required.'
+
 RULES = [
     ("C13.GUARD", rule_guard, "every constrained field is stored through checks.dictionary(<field>, <right vocabulary>) / checks.number"),
     ("C13.VOCAB", rule_vocab, "the guard's accepted set equals the declared vocabulary (class-namespace model, probe evaluation); declared = INDI vocabulary"),
